@@ -28,6 +28,8 @@ pub enum Range {
     EndingAt { back: u8, len: u32 },
     /// crosses the end of the view by `over` bytes
     Crossing { over: u16, len: u32 },
+    /// starts within the first 16 bytes of the view (nothing is mapped below it)
+    AtStart { start: u8, len: u8 },
 }
 
 #[derive(Debug, Clone, PartialEq, Eq, Hash, Serialize, Deserialize)]
@@ -65,6 +67,7 @@ pub fn check(c: &Case) -> Verdict {
                 let len = 1 + (len as u64 % end);
                 (end - len, len)
             }
+            Range::AtStart { start, len } => ((start % 16) as u64, 1 + (len % 24) as u64),
             Range::Crossing { over, len } => {
                 let end = ARENA_SIZE + 1 + (over as u64 % 6000);
                 let len = (1 + (len as u64 % 65536)).min(end).max(end - ARENA_SIZE + 1);
@@ -148,6 +151,9 @@ pub fn check(c: &Case) -> Verdict {
         }
     }
     let nt = len % 8 != 0 || end + 8 > ARENA_SIZE;
+    if start < 8 && len < 8 {
+        classes.push("short-read-at-low-edge-of-mapping".into());
+    }
     if len % 8 != 0 {
         classes.push("len%8!=0".into());
     }
@@ -165,6 +171,7 @@ pub fn case_strategy() -> impl Strategy<Value = Case> {
             4 => (any::<u32>(), prop_oneof![0u32..64, any::<u32>()]).prop_map(|(start, len)| Range::Inside { start, len }),
             4 => (0u8..9, prop_oneof![0u32..64, any::<u32>()]).prop_map(|(back, len)| Range::EndingAt { back, len }),
             2 => (any::<u16>(), any::<u32>()).prop_map(|(over, len)| Range::Crossing { over, len }),
+            2 => (any::<u8>(), any::<u8>()).prop_map(|(start, len)| Range::AtStart { start, len }),
         ],
         any::<bool>(),
     )
@@ -177,7 +184,7 @@ pub fn run(ctx: &mut LaneCtx) {
         SubSpec {
             name: "strategies",
             cases: (40_000, 3_000_000),
-            rule: "(strategy in {process_vm_readv, /proc/pid/mem, PTRACE_PEEKDATA, auto-probe, copy_from_process}) x view {rw followed by PROT_NONE page, read-only followed by unmapped memory} x range {anywhere inside, ending 0..8 bytes before the end, crossing the end} x length 1..64 KiB at all alignments, via read() and read_to_vec(); oracle = address-derived pattern; non-trivial = length not a multiple of 8, or range within 8 bytes of / across the mapping end; distinct = hash of case",
+            rule: "(strategy in {process_vm_readv, /proc/pid/mem, PTRACE_PEEKDATA, auto-probe, copy_from_process}) x view {rw followed by PROT_NONE page, read-only followed by unmapped memory} x range {anywhere inside, starting within 16 bytes of the low edge (nothing mapped below), ending 0..8 bytes before the end, crossing the end} x length 1..64 KiB at all alignments, via read() and read_to_vec(); oracle = address-derived pattern; non-trivial = length not a multiple of 8, or range within 8 bytes of / across the mapping end; distinct = hash of case",
             strategy: case_strategy().boxed(),
             max_shrink_iters: 2048,
             log_current: true,
